@@ -250,6 +250,10 @@ def main(mod, tier, seed, jobs, only=None):
         key=lambda v: (len(json.dumps(v["case"], default=repr)), _sig(v)),
     )
     n_viol = len(viols)
+    if os.environ.get("PV_DUMP"):
+        with open(os.environ["PV_DUMP"], "w") as f:
+            for v in viols:
+                f.write(json.dumps(v, default=repr) + "\n")
     d = os.path.join(REPLAY_DIR, prop)
     if os.path.isdir(d) and only is None:
         for fn in os.listdir(d):
